@@ -67,7 +67,8 @@ def electrum_normalize(text: str) -> str:
     return "".join(c for i, c in enumerate(t) if not (c.isspace() and is_cjk(t[i - 1]) and is_cjk(t[i + 1])))
 
 
-PASSPHRASES = ["", "TREZOR", "pässwörd", "ｐａｓｓ　ｗｏｒｄ", "ǅ ﬁ Ω", "パスフレーズ", " leading and trailing ", "é vs é"]
+# (the third: compatibility characters that decompose to CAPITAL letters -- the order "decompose, then lower-case" shows on them only)
+PASSPHRASES = ["", "TREZOR", "\u2116 \u2122 \u2103 \u3391 \u1d2c\u1d2e \u2160\u2161 \ufb01", "pässwörd", "ｐａｓｓ　ｗｏｒｄ", "ǅ ﬁ Ω", "パスフレーズ", " leading and trailing ", "é vs é"]
 LANGS = ["en", "es", "fr", "it", "ja", "ko", "pt", "cs", "ru", "tr", "zh", "zh_tw"]
 
 
@@ -149,7 +150,7 @@ def record_electrum(run: Run, rnd: random.Random, thorough: bool, evs: list[dict
                 v3 = outcome(lambda: electrum.version_from_mnemonic(m3))
                 evs.append({"op": "elver", "norm": electrum_normalize(m3).encode().hex(), "nwords": len(m3.split()), "lang": lang, "typ": "swapped", "out": v3[0] if isinstance(v3, tuple) else ("none" if v3 == "refused" else v3)})
                 if typ in ("standard", "segwit") and (thorough or lang in ("en", "ja")):
-                    for pw in PASSPHRASES[: (8 if thorough else 3)]:
+                    for pw in PASSPHRASES[: (9 if thorough else 4)]:
                         sd = outcome(lambda: electrum._seed_from_mnemonic(m, pw))
                         evs.append({"op": "elseed", "norm": norm.encode().hex(), "normpass": electrum_normalize(pw).encode().hex(), "out": sd[1].hex() if isinstance(sd, tuple) else str(sd)})
     return stats
@@ -210,7 +211,82 @@ def record_slip39(run: Run, rnd: random.Random, thorough: bool, evs: list[dict[s
                     w[rnd.randrange(len(w))] = wl[rnd.randrange(1024)]
                     rec([" ".join(w)] + mn[1:], pw, "one word changed")
                     # a share of another split among them
+    # the largest thresholds SLIP-0039 defines: sixteen of sixteen members, sixteen of sixteen groups
+    for gt, groups in ((1, [(16, 16)]), (16, [(1, 1)] * 16), (2, [(15, 16), (1, 1)])):
+        secret = rnd.randbytes(16)
+        counter = itertools.count(1)
+        mn_groups = outcome(lambda: slip39.mnemonics_from_master_secret(secret, groups, gt, "", 0, True, lambda n: bytes((next(counter) * 41 + k * 7) % 256 for k in range(n))))
+        if isinstance(mn_groups, str):
+            evs.append({"op": "slip39own", "secret": secret.hex(), "mnemonics": [], "pass": "", "refused": True, "out": "", "kind": f"mnemonics_from_master_secret({gt}, {groups}) refused: {mn_groups}"})
+            continue
+        mn = []
+        for g in range(gt if gt > 2 else len(groups))[:gt if gt > 2 else 2 if gt == 2 else 1]:
+            mn += list(rnd.sample(mn_groups[g], groups[g][0]))
+        rnd.shuffle(mn)
+        rec(mn, "", f"library shares at the largest threshold {gt} of {groups[:2]}..", secret)
+        rec(mn[:-1], "", "one short of the largest threshold")
     return stats
+
+
+def record_dispatch(run: Run, rnd: random.Random, thorough: bool, evs: list[dict[str, Any]]) -> int:
+    """mnemonic.dispatch: which schemes claim a sentence, in the language the caller names -- BIP39 sentences asked in their own and in another language,
+    sentences made of the words English and French share (valid in one, in the other, in both), Electrum seeds, SLIP-0039 shares, near misses."""
+    from btclib.mnemonic import bip39, dispatch, electrum, slip39
+
+    wl_slip = {w: k for k, w in enumerate(wordlist("slip39"))}
+    lists = {lang: {w: k for k, w in enumerate(wordlist(lang))} for lang in ("en", "fr", "es", "it")}
+
+    def ev(sentence: str, lang: str, what: str) -> None:
+        words = sentence.split()
+        idx = [lists[lang].get(w, -1) for w in words]
+        sidx = [wl_slip.get(w, -1) for w in words]
+        out = outcome(lambda: dispatch.all_seed_types_from_mnemonic(sentence, lang))
+        if isinstance(out, list) and any(t == "electrum_old" for t in out):
+            return                                   # (pre-2.0 Electrum seeds are not in the specification)
+        evs.append({"op": "seedtypes", "lang": lang, "in_list": all(k >= 0 for k in idx) and bool(words), "idx": idx if all(k >= 0 for k in idx) else [], "nwords": len(words),
+                    "slip_idx": sidx if all(k >= 0 for k in sidx) and words else [], "norm": electrum_normalize(sentence).encode().hex(), "out": out if isinstance(out, list) else [str(out)],
+                    "first": outcome(lambda: dispatch.seed_type_from_mnemonic(sentence, lang)), "what": what})
+
+    n0 = len(evs)
+    for lang in ("en", "fr", "es"):
+        for bits in (128, 256):
+            m = bip39.mnemonic_from_entropy(rnd.getrandbits(bits).to_bytes(bits // 8, "big"), lang)
+            for asked in ("en", "fr", "es"):
+                ev(m, asked, f"a {lang} BIP39 sentence asked as {asked}")
+            w = m.split()
+            ev(" ".join(w[:-1]), lang, "one word short")
+            ev(" ".join(w[:-1] + [w[0]]), lang, "last word replaced")
+    shared = sorted(set(lists["en"]) & set(lists["fr"]))
+    found = {"fr only": 0, "en only": 0, "both": 0, "neither": 0}
+    tries = 0
+    while min(found.values()) < (3 if thorough else 1) and tries < 200000:
+        tries += 1
+        words = [rnd.choice(shared) for _ in range(12)]
+        s_ = " ".join(words)
+        def valid(lang_: str) -> bool:                      # (the entropy comes back as a string of bits: a refusal is told apart by what it says)
+            r_ = outcome(lambda: bip39.entropy_from_mnemonic(s_, lang_))
+            return not (isinstance(r_, str) and (r_ == "refused" or r_.startswith("foreign")))
+
+        en_ok, fr_ok = valid("en"), valid("fr")
+        kind = "both" if en_ok and fr_ok else "en only" if en_ok else "fr only" if fr_ok else "neither"
+        if found[kind] < (3 if thorough else 1):
+            found[kind] += 1
+            for asked in ("en", "fr", "it"):
+                ev(s_, asked, f"twelve words English and French share, a valid BIP39 sentence in: {kind}; asked as {asked}")
+    for typ in ("standard", "segwit"):
+        m = electrum.mnemonic_from_entropy(typ, rnd.getrandbits(132), "en")
+        ev(m, "en", f"an Electrum {typ} seed")
+        ev(m.upper(), "en", f"an Electrum {typ} seed, upper case")
+    counter = itertools.count(1)
+    for sh in slip39.mnemonics_from_master_secret(rnd.randbytes(16), [(1, 1)], 1, "", 0, True, lambda n: bytes((next(counter) * 3 + k) % 256 for k in range(n)))[0][:1]:
+        ev(sh, "en", "a SLIP-0039 share")
+        w = sh.split()
+        w[3] = "academic" if w[3] != "academic" else "acid"
+        ev(" ".join(w), "en", "a SLIP-0039 share with one word changed")
+    ev("", "en", "the empty sentence")
+    ev("abandon " * 11 + "about", "en", "the BIP39 test sentence")
+    ev("abandon " * 11 + "about", "fr", "the BIP39 test sentence asked as French")
+    return len(evs) - n0
 
 
 def record_bip85(run: Run, rnd: random.Random, thorough: bool, evs: list[dict[str, Any]]) -> int:
@@ -259,18 +335,19 @@ def check(run: Run) -> None:
     s2 = record_electrum(run, rnd, thorough, evs)
     s3 = record_slip39(run, rnd, thorough, evs, model_shares)
     n85 = record_bip85(run, rnd, thorough, evs)
-    keep = ("op", "entropy", "indexes", "out", "text", "pass", "norm", "nwords", "base", "normpass", "mnemonics", "refused", "key", "msg", "secret")
+    n_disp = record_dispatch(run, rnd, thorough, evs)
+    keep = ("lang", "in_list", "idx", "slip_idx", "first", "op", "entropy", "indexes", "out", "text", "pass", "norm", "nwords", "base", "normpass", "mnemonics", "refused", "key", "msg", "secret")
     compact = [{k: v for k, v in e.items() if k in keep} for e in evs]
     results, bad, diag = events.validate("C13Trace", compact, batch=300, timeout=6000)
     for r in results:
         run.tlc(r, "V C13Trace")
     for k in bad:
         e = evs[k]
-        sub = e.get("kind") or e.get("typ") or e.get("fn") or ""
+        sub = e.get("kind") or e.get("typ") or e.get("fn") or e.get("what") or ""
         run.violation(f"mnemonics|{e['op']}|{e.get('lang', '')}|{sub}", f"{e['op']}: the specification does not explain {({kk: (vv if len(str(vv)) < 80 else str(vv)[:80]) for kk, vv in e.items()})}; "
                       f"expected {str(diag.get(k))[:300]}", {"event": e, "expected": str(diag.get(k))[:2000]})
     run.sample({"event": {k: (v if len(str(v)) < 100 else str(v)[:100]) for k, v in next(e for e in evs if e["op"] == "slip39own" and not e["refused"]).items()}})
-    run.section("events", {"bip39": s1, "electrum": s2, "slip39": s3, "bip85_paths": n85, "shares_from_the_specification": len(model_shares)})
+    run.section("events", {"bip39": s1, "electrum": s2, "slip39": s3, "bip85_paths": n85, "dispatch": n_disp, "shares_from_the_specification": len(model_shares)})
     if s3["from_spec"] < 3 or s3["recoveries"] < 8 or s1["sentences"] < 100:
         raise tlc.TLCFailure(f"C13 harness is vacuous: {s1} {s3}")
     run.count(evaluations=len(evs), validated=len(evs), nontrivial=len(evs))
